@@ -83,9 +83,18 @@ pub fn disturb(k: usize, rng: &mut Rng) -> &'static str {
             let cut = b.len() - 1 - rng.below(b.len() / 2);
             let _ = erltf::decode(&b[..cut]);
             let _ = erltf::decode_borrowed(&b[..cut]).map(|t| t.to_owned());
-            // and a deeper one cut right before its innermost element
+            // and deeper ones cut exactly where the next term's tag byte is expected: inside tuples, after the
+            // elements of a list (tail missing), after a map key (value missing), right behind the version byte
             let deep = nest(&[104, 1], 40 + rng.below(200), &[], &[]);
             let _ = erltf::decode(&deep);
+            let _ = erltf::decode_borrowed(&deep).map(|t| t.to_owned());
+            let _ = erltf::decode(&[131]);
+            let _ = erltf::decode(&[131, 108, 0, 0, 0, 1, 97, 1]);
+            let _ = erltf::decode(&[131, 116, 0, 0, 0, 1, 97, 1]);
+            let _ = erltf::decode(&[131, 104, 3, 97, 1, 97, 2]);
+            let mut cache = erltf::AtomCache::new();
+            let _ = erltf::decode_with_atom_cache(&[131, 104, 2, 97, 1], &mut cache);
+            let _ = erltf::decoder::decode_with_trailing(&[131, 108, 0, 0, 0, 2, 97, 1]);
         }
         "decode:bad-tag-inside-nesting" => {
             let mut b = nested_sample();
@@ -132,6 +141,23 @@ pub fn disturb(k: usize, rng: &mut Rng) -> &'static str {
     label
 }
 
+/// The deepest nesting of one-element tuples around a small integer that `erltf::decode` accepts, measured once
+/// on a fresh thread (nothing done elsewhere in this process can have influenced it).
+pub fn max_legal_depth() -> usize {
+    static DEPTH: std::sync::OnceLock<usize> = std::sync::OnceLock::new();
+    *DEPTH.get_or_init(|| {
+        std::thread::spawn(|| {
+            let mut d = 1usize;
+            while d < 5000 && erltf::decode(&nest(&[104, 1], d + 1, &[97, 7], &[])).is_ok() {
+                d += 1;
+            }
+            d
+        })
+        .join()
+        .unwrap_or(64)
+    })
+}
+
 /// Inner encodings (without version byte) of the identifiers used by `standard_probe`.
 pub fn probe_identifiers() -> Vec<Vec<u8>> {
     let node = [119u8, 3, b'n', b'@', b'h'];
@@ -157,8 +183,9 @@ pub fn standard_probe() -> Vec<(String, String)> {
     add("decode nested sample", &|| format!("{:?}", erltf::decode(&sample)));
     add("decode_borrowed nested sample", &|| format!("{:?}", erltf::decode_borrowed(&sample).map(|t| t.to_owned())));
     add("re-encode nested sample", &|| format!("{:?}", erltf::decode(&sample).map(|t| erltf::encode(&t))));
-    // valid terms close to the nesting limit
-    for d in [100usize, 200, 250] {
+    // valid terms close to the nesting limit, the deepest accepted one included (so that a single leaked level shows)
+    let deepest = max_legal_depth();
+    for d in [100usize, 200, 250, deepest.saturating_sub(1), deepest] {
         let deep = nest(&[104, 1], d, &[97, 7], &[]);
         add(&format!("decode {} nested tuples", d), &|| format!("{:?}", erltf::decode(&deep).map(|t| erltf::encode(&t).map(|b| b == deep))));
         add(&format!("decode_borrowed {} nested tuples", d), &|| format!("{:?}", erltf::decode_borrowed(&deep).is_ok()));
@@ -203,8 +230,9 @@ pub fn probe_history_independence(ctx: &Ctx, prop: &str, rng: &mut Rng, rounds: 
     let before = probe();
     for round in 0..rounds {
         let k = if round < DISTURBANCES.len() { round } else { rng.below(DISTURBANCES.len()) };
-        // once, a few times, or very often: a leak of one unit per call needs many calls to show
-        let repeats = *rng.pick(&[1usize, 1, 3, 40, 300]);
+        // the first pass issues every disturbance very often (a leak of one unit per call needs many calls to
+        // show), later rounds once, a few times or often
+        let repeats = if round < DISTURBANCES.len() { 300 } else { *rng.pick(&[1usize, 1, 3, 40, 300]) };
         let mut label = "";
         for _ in 0..repeats {
             label = disturb(k, rng);
